@@ -29,7 +29,7 @@ def seeds(wd, exe, q):
     out.append(("lib_params_only", os.path.join(sd, "lib2", "ref_1.c3d")))
     import random
     k = 0
-    want = 2 if q else 16
+    want = 2 if q else 8
     i = 0
     while k < want and i < 400:
         content, L, meta = gen.gen_case(C.seed() + 99, i)
@@ -65,6 +65,8 @@ def run(prop, tier):
                     ss = ss[(C.seed() % 24)::24]
                 elif name != "lib_points_analogs":
                     ss = [x for x in ss if x[0].startswith("field")][(C.seed() % 2)::2] + [x for x in ss if not x[0].startswith("field")][(C.seed() % 6)::6]
+            elif name.startswith("vendor") and len(b) > 200000:
+                ss = ss[(C.seed() % 8)::8]       # MB-sized inputs cost a second per load under ASan: every 8th spec, seeded phase (thorough)
             for kind, s in ss:
                 specs.append(s); kinds.append((name, kind))
             per_seed[name] += len(ss)
@@ -74,7 +76,7 @@ def run(prop, tier):
         # quick: cap the volume by taking a seeded sample of the big classes, never of the exhaustive small-file classes
         lst = os.path.join(wd, "specs.txt")
         open(lst, "w").write("\n".join(specs) + "\n")
-        fills = [190] if q else [0, 127, 190]
+        fills = [190] if q else [0, 190]
         viols = []
         statuses = collections.Counter()
         outcomes = collections.Counter()
